@@ -170,6 +170,8 @@ def resolve_unwindset(q, wd):
             hit = [l for l in loops if l[3] == fn or re.match(re.escape(fn) + r"_\d+$", l[3])
                    or l[3].endswith("_" + fn) and l[3].startswith("__CPROVER_file_local")]
             out += ["%s:%s" % (l[0], n) for l in hit]
+            if not hit and fn in ("strcmp", "strncmp", "memcmp", "strlen", "memset", "memchr", "strchr", "strcpy", "strncpy", "strdup"):
+                out.append("%s.0:%s" % (fn, n))      # CPROVER library function: linked in by cbmc itself, not yet in the binary
         else:
             out.append(e)
     return out
